@@ -75,8 +75,16 @@ class RingCtx:
         return list(lst)
 
 
-def module_under_contract():
-    """apmath with two_sum / quick_two_sum / two_prod replaced by their contracts (every other function is the real code)"""
+class OutOfContract(Exception):
+    pass
+
+
+def module_under_contract(deep=False):
+    """apmath with two_sum / quick_two_sum / two_prod replaced by their contracts (every other function is the real code).
+
+    deep=True: vecsum and renormalize are replaced by THEIR contracts as well (a list of the same length with the same
+    exact sum - what the direct obligations on vecsum / renormalize establish), so that the callers multiply / square /
+    add / subtract are verified against the callee contracts, without forking through the callee bodies."""
     import functional_algorithms.apmath as AP
 
     g = dict(AP.__dict__)
@@ -104,9 +112,29 @@ def module_under_contract():
         p = fresh("p")
         return p, Rat.coerce(x) * Rat.coerce(y) - p
 
+    def same_sum_list(seq, tag):
+        seq = list(seq)
+        out = [fresh(tag) for _ in seq[:-1]]
+        out.append(total(seq) - total(out))
+        return out
+
+    def vecsum(ctx, seq, fast=False, fix_overflow=False):
+        return same_sum_list(seq, "v")
+
+    def renormalize(ctx, seq, functional=False, fast=False, size=None, dtype=None, fix_overflow=False):
+        if dtype is not None:
+            max_size = {numpy.float16: 4, numpy.float32: 12, numpy.float64: 40}[dtype]
+            size = max_size if size is None else min(size, max_size)
+        if size is not None and size < len(seq):
+            raise OutOfContract("renormalize with a size limit below the input length does not preserve the sum")
+        return same_sum_list(seq, "r")
+
+    replaced = ("two_sum", "quick_two_sum", "two_prod") + (("vecsum", "renormalize") if deep else ())
     g.update(two_sum=two_sum, quick_two_sum=quick_two_sum, two_prod=two_prod)
+    if deep:
+        g.update(vecsum=vecsum, renormalize=renormalize)
     for name, obj in list(AP.__dict__.items()):
-        if isinstance(obj, types.FunctionType) and obj.__module__ == AP.__name__ and name not in ("two_sum", "quick_two_sum", "two_prod"):
+        if isinstance(obj, types.FunctionType) and obj.__module__ == AP.__name__ and name not in replaced:
             f = types.FunctionType(obj.__code__, g, name, obj.__defaults__, obj.__closure__)
             f.__kwdefaults__ = obj.__kwdefaults__
             g[name] = f
@@ -154,6 +182,17 @@ def instances(tier):
             if n == 2 and functional and tier == "quick":
                 continue  # > 20000 paths (functional compaction of 6 items): thorough tier, not claimed
             out.append(("square", dict(n=n, functional=functional)))
+    # callers against the callee contracts of vecsum / renormalize (no forking through the callee bodies): larger operands
+    nm = 4
+    for n1 in range(1, nm + 1):
+        for n2 in range(1, nm + 1):
+            for functional in (False, True):
+                out.append(("multiply", dict(n1=n1, n2=n2, functional=functional, modular=True)))
+                out.append(("add", dict(n1=n1, n2=n2, functional=functional, modular=True)))
+                out.append(("subtract", dict(n1=n1, n2=n2, functional=functional, modular=True)))
+    for n in range(1, nm + 1):
+        for functional in (False, True):
+            out.append(("square", dict(n=n, functional=functional, modular=True)))
     for n in range(0, 5):
         for k in range(0, n + 1):
             out.append(("nztopk", dict(n=n, k=k)))
@@ -163,7 +202,7 @@ def instances(tier):
 
 def run_instance(arg):
     fn, p = arg
-    g, counter = module_under_contract()
+    g, counter = module_under_contract(deep=bool(p.get("modular")))
     ctx = RingCtx()
     t0 = time.time()
     npaths = 0
@@ -226,6 +265,8 @@ def run_instance(arg):
             ok, detail = res
             if not ok:
                 fails.append(dict(detail, inputs={k: repr(v) for k, v in inp.items()}))
+    except OutOfContract as e:
+        return arg, None, dict(reason="callee used outside its contract: %s" % e), time.time() - t0
     except NotLinear as e:
         return arg, None, dict(reason="zero test not linear: outside the decidable subset", factor=repr(e.args[0])), time.time() - t0
     except RuntimeError as e:
@@ -277,7 +318,8 @@ def replay_instance(arg):
                         kw = {k: p[k] for k in ("fast", "functional") if k in p}
                         out = getattr(AP, fn)(ctx, a, **kw)
                         want = fr(a) if fn != "negate" else -fr(a)
-                    if all(numpy.isfinite(v) for v in out) and fr(out) != want and fn not in ("multiply", "square"):
+                    # products: the Dekker error term is exact at float64 for these magnitudes (no underflow); not so at float16
+                    if all(numpy.isfinite(v) for v in out) and fr(out) != want and (fn not in ("multiply", "square") or t is numpy.float64):
                         return dict(replayed=True, dtype=t.__name__, inputs=[repr(v) for v in (a if fn not in ("add", "subtract") else a + b)], output=[repr(v) for v in out], exact_sum=str(fr(out)), wanted=str(want))
             except Exception as e:
                 return dict(replayed=True, raised=repr(e))
